@@ -235,22 +235,41 @@ theorem signedSeq_valid (d : Nat) (as : List ℝ) : Valid d (signedSeq d as) := 
   have h1 : (a, pl) ∈ as.zip (rotationPlanes d) := List.fst_mem_of_mem_zipIdx hmem
   exact mem_rotationPlanes.1 (List.of_mem_zip h1).2
 
-theorem toM_foldl_rotate (d : Nat) (l : List ((Nat × Nat) × ℝ)) (R0 : Nat → Nat → ℝ) :
-    toM d (l.foldl (fun r p => matmul d (givens p.1 p.2) r) R0)
-      = ((l.map (gM d)).reverse).prod * toM d R0 := by
+theorem ofArr_tabArr {d : Nat} (f : Nat → Nat → ℝ) {i j : Nat} (hi : i < d) (hj : j < d) :
+    ofArr d (tabArr d f) i j = f i j := by
+  have hsz : (tabArr d f).size = d * d := by simp [tabArr]
+  have hlt : j + i * d < d * d := by
+    calc j + i * d < d + i * d := by omega
+      _ = (i + 1) * d := by ring
+      _ ≤ d * d := Nat.mul_le_mul_right d (by omega)
+  have hd : 0 < d := by omega
+  unfold ofArr
+  rw [dif_pos ⟨hj, by rw [hsz]; exact hlt⟩]
+  simp only [tabArr, Array.getElem_ofFn]
+  rw [Nat.add_mul_div_right _ _ hd, Nat.add_mul_mod_self_right, Nat.div_eq_of_lt hj, Nat.mod_eq_of_lt hj,
+    Nat.zero_add]
+
+/-- materialising a matrix does not change its `d × d` block -/
+theorem toM_ofArr_tabArr (d : Nat) (f : Nat → Nat → ℝ) : toM d (ofArr d (tabArr d f)) = toM d f := by
+  ext i j
+  exact ofArr_tabArr f i.2 j.2
+
+theorem toM_foldl_rotate (d : Nat) (l : List ((Nat × Nat) × ℝ)) (R0 : Array ℝ) :
+    toM d (ofArr d (l.foldl (fun r p => tabArr d (matmul d (givens p.1 p.2) (ofArr d r))) R0))
+      = ((l.map (gM d)).reverse).prod * toM d (ofArr d R0) := by
   induction l generalizing R0 with
   | nil => simp
   | cons p l ih =>
-    rw [List.foldl_cons, ih, toM_matmul]
+    rw [List.foldl_cons, ih, toM_ofArr_tabArr, toM_matmul]
     simp [gM, Matrix.mul_assoc]
 
-theorem toM_foldl_derotate (d : Nat) (l : List ((Nat × Nat) × ℝ)) (D0 : Nat → Nat → ℝ) :
-    toM d (l.foldl (fun r p => matmul d r (givens p.1 p.2)) D0)
-      = toM d D0 * (l.map (gM d)).prod := by
+theorem toM_foldl_derotate (d : Nat) (l : List ((Nat × Nat) × ℝ)) (D0 : Array ℝ) :
+    toM d (ofArr d (l.foldl (fun r p => tabArr d (matmul d (ofArr d r) (givens p.1 p.2))) D0))
+      = toM d (ofArr d D0) * (l.map (gM d)).prod := by
   induction l generalizing D0 with
   | nil => simp
   | cons p l ih =>
-    rw [List.foldl_cons, ih, toM_matmul]
+    rw [List.foldl_cons, ih, toM_ofArr_tabArr, toM_matmul]
     simp [gM, Matrix.mul_assoc]
 
 theorem gM_eq_givM {d : Nat} {p : (Nat × Nat) × ℝ} (h : p.1.1 < p.1.2 ∧ p.1.2 < d) :
